@@ -434,7 +434,7 @@ def _search(a, pid, mod, findings, binfo, t0):
         env = worker_env(mod)
         if a.survey:
             env["VERIF_SURVEY"] = "1"
-        with tempfile.TemporaryDirectory(prefix="vf-") as td:
+        with tempfile.TemporaryDirectory(prefix="vf-", ignore_cleanup_errors=True) as td:
             procs = []
             for s in range(nshards):
                 op = os.path.join(td, "s%d.json" % s)
@@ -462,6 +462,8 @@ def _search(a, pid, mod, findings, binfo, t0):
                                             "crash/signal%d" % -p.returncode: [1, case, (se or "")[-300:], len(canon(case))]},
                                         "fail": {"case": case, "viol": [("crash/signal%d" % -p.returncode, (se or "")[-300:])]}})
                         continue
+                    for _s, _o, q in procs:
+                        q.kill()
                     raise HarnessError("shard %d died rc=%s: %s" % (s, p.returncode, (se or "")[-3000:]))
                 results.append(json.load(open(op)))
         for r in results:
